@@ -28,6 +28,9 @@ import (
 const (
 	chanNoSendRecv = 0
 	chanHasRecv    = 1
+	// chanDelivered: a sender has copied its value into the buffer of the
+	// receiver that raised chanHasRecv; only that receiver resets the flag.
+	chanDelivered = 2
 )
 
 type Chan struct {
@@ -98,7 +101,7 @@ func ChanTrySend(p *Chan, v unsafe.Pointer, eltSize int) bool {
 		if p.data != nil {
 			c.Memcpy(p.data, v, uintptr(eltSize))
 		}
-		p.getp = chanNoSendRecv
+		p.getp = chanDelivered
 	} else {
 		if p.len == n || p.close {
 			p.mutex.Unlock()
@@ -135,7 +138,7 @@ func ChanSend(p *Chan, v unsafe.Pointer, eltSize int) bool {
 		if p.data != nil {
 			c.Memcpy(p.data, v, uintptr(eltSize))
 		}
-		p.getp = chanNoSendRecv
+		p.getp = chanDelivered
 	} else {
 		for p.len == n {
 			p.cond.Wait(&p.mutex)
@@ -162,7 +165,7 @@ func chanTryRecv(p *Chan, v unsafe.Pointer, eltSize int, acceptSelectSend bool) 
 	n := p.cap
 	p.mutex.Lock()
 	if n == 0 {
-		if p.sends == 0 || p.getp == chanHasRecv || p.close {
+		if p.sends == 0 || p.getp != chanNoSendRecv || p.close {
 			tryOK = p.close
 			p.mutex.Unlock()
 			return
@@ -193,9 +196,8 @@ func chanTryRecv(p *Chan, v unsafe.Pointer, eltSize int, acceptSelectSend bool) 
 		for p.getp == chanHasRecv && !p.close {
 			p.cond.Wait(&p.mutex)
 		}
-		recvOK = !p.close
+		recvOK = chanEndRecv(p)
 		tryOK = recvOK
-		p.mutex.Unlock()
 	} else {
 		recvOK, tryOK = true, true
 	}
@@ -206,7 +208,7 @@ func ChanRecv(p *Chan, v unsafe.Pointer, eltSize int) (recvOK bool) {
 	n := p.cap
 	p.mutex.Lock()
 	if n == 0 {
-		for p.getp == chanHasRecv && !p.close {
+		for p.getp != chanNoSendRecv && !p.close {
 			p.cond.Wait(&p.mutex)
 		}
 		if p.close {
@@ -237,11 +239,24 @@ func ChanRecv(p *Chan, v unsafe.Pointer, eltSize int) (recvOK bool) {
 		for p.getp == chanHasRecv && !p.close {
 			p.cond.Wait(&p.mutex)
 		}
-		recvOK = !p.close
-		p.mutex.Unlock()
+		recvOK = chanEndRecv(p)
 	} else {
 		recvOK = true
 	}
+	return
+}
+
+// chanEndRecv finishes an unbuffered receive whose hand-off wait is over. It is
+// called with p.mutex held by the receiver that raised chanHasRecv and releases
+// it. The value was received iff a sender marked the hand-off as delivered,
+// even if the channel has been closed since; the flag is handed back so that
+// the next receiver (blocked or in a select) can raise it.
+func chanEndRecv(p *Chan) (recvOK bool) {
+	recvOK = p.getp == chanDelivered
+	p.getp = chanNoSendRecv
+	notifyOps(p)
+	p.mutex.Unlock()
+	p.cond.Broadcast()
 	return
 }
 
